@@ -72,6 +72,16 @@ consuming input would make the Rust loop spin for ever, which the model reports 
 
 end Loops
 
+/-- `n ≤ l.length` in `min n l.length` steps -/
+def lengthGe {α : Type} : List α → Nat → Bool
+  | _, 0 => true
+  | [], _ + 1 => false
+  | _ :: r, n + 1 => lengthGe r n
+
+/-- `n <= self.reader.raw().len()` (the checks of a count against the remaining input; `P.remaining`
+would walk the whole rest of a 1 MiB input at every array and type) -/
+@[inline] def atLeast (n : Nat) : P Bool := fun _ s => .ok (lengthGe s.rest n, s)
+
 /-! ### packed integers -/
 
 /-- `x as i32` for a `u32` -/
@@ -257,9 +267,9 @@ def readType (hs : HSt) : P (HType × HSt) := do
   let _ ← packedInt
   let parent ← packedInt
   let memberCount ← packedInt
-  let rem ← P.remaining
-  -- `member_count as i64 > self.reader.raw().len() as i64` is rejected
-  if (rem : Int) < memberCount then P.failP
+  -- `member_count as i64 > self.reader.raw().len() as i64` is rejected (never for a negative count)
+  let enough ← atLeast memberCount.toNat
+  if !enough then P.failP
   else
     match (asIndex parent).bind (r.2.types[·]?) with
     | none => P.failP
@@ -332,9 +342,9 @@ def readArray : Nat → HSt → Member → Nat → P (List Value × HSt)
 def readMemberValue (hs : HSt) (m : Member) : P (Value × HSt) :=
   if isArray m.ty then do
     let len ← packedInt
-    let rem ← P.remaining
     -- `array_len < 0 || array_len as usize > self.reader.raw().len()` is rejected
-    if len < 0 ∨ (rem : Int) < len then P.failP
+    let enough ← atLeast len.toNat
+    if len < 0 ∨ !enough then P.failP
     else if baseType m.ty == 8 && m.cls.isNone then P.failP
     else do
       let l ← readArray (maxArrayDepth + 1) hs m len.toNat
